@@ -4,7 +4,7 @@
    mathematical object: a dense array is a shape together with a total function from index
    tuples to values (only in-range tuples matter).  Element values are an arbitrary type V. *)
 From Coq Require Import ZArith List Bool.
-From Verif Require Import Shape.
+From Verif Require Import Shape COO.
 Import ListNotations.
 Open Scope Z_scope.
 
@@ -150,3 +150,6 @@ Arguments np_diagonalize {V}.
 Arguments np_take_list {V}.
 Arguments np_take_int {V}.
 Arguments da_flat {V}.
+
+(* the dense array a COO denotes *)
+Definition darr_of_coo {V} (c : coo V) : darr V := mkD (c_shape c) (den c).
